@@ -46,7 +46,7 @@ theorem trimCapacity_spec (a : ArraySized) (m : Mem) (h : a.Inv) :
         rw [hchk]
         refine ⟨trivial, ?_, ?_, hns1.1, trivial, trivial, trivial, ?_⟩
         · unfold Inv; dsimp only
-          exact ⟨j1, hns1.2.2.1, hns1.2.1, by simp, by omega⟩
+          exact ⟨j1, hns1.2.2.1, hns1.2.1, by simp, Nat.le_trans (slots_le hns1.2.2.2) j5⟩
         · rw [abs_eq_elems, abs_eq_elems]
           dsimp only
           apply elems_congr
